@@ -288,8 +288,12 @@ func ddp_string_length [C12]
   modifies nothing
   ensures result == cpCount(str)
 
+// a Text that owns its block (or none): all that releasing needs - weaker than wfStr, it also admits Texts with an
+// embedded NUL such as the one-character Text of the Buchstabe 0
+spec ownsBlk(s *ddpstring) bool :=
+  s != nil && (s.str.B == nil ==> s.cap == 0) && (s.str.B != nil ==> s.str.O == 0 && s.cap >= 1 && s.str.B.$n == s.cap)
 func ddp_free_string [C05, C12]
-  requires wfStr(str)
+  requires ownsBlk(str)
   modifies ddprt.Blk.$n
   ensures str.str.B != nil ==> str.str.B.$n == -1
   ensures forall b *Blk :: b == nil || b != str.str.B ==> b.$n == old(b.$n)
@@ -335,6 +339,27 @@ func ddp_string_string_verkettet [C12, C05]
   // str2 is unchanged
   ensures str2.str == old(str2.str) && str2.cap == old(str2.cap) && wfStr(str2)
   ensures forall k int :: 0 <= k && k < str2.cap ==> byteAt(str2.str, k) == old(byteAt(str2.str, k))
+
+// C05, ownership once more, for EVERY Text the runtime can produce as left operand - also one that "is empty" by
+// ddp_string_empty (first byte NUL) but owns a block, e.g. ((0 als Buchstabe) als Text): its block lives on in the
+// result or is released
+func ddp_string_string_verkettet#2 [C05]
+  requires ownsBlk(str1) && tolStr(str1) && wfStr(str2) && ret != nil && ret != str1 && ret != str2 && str1 != str2
+  requires str1.str.B != nil ==> str1.str.B != str2.str.B
+  modifies ddprt.ddpstring, ddprt.Blk.$n, ddprt.Blk.$m
+  ensures old(str1.str.B) != nil && ret.str.B != old(str1.str.B) ==> old(str1.str.B).$n == -1
+  // ... and the operand is left as the empty Text (generated code releases a temporary operand again at scope exit)
+  ensures str1.str.B == nil && str1.cap == 0
+func ddp_char_string_verkettet#2 [C05]
+  requires ownsBlk(str) && tolStr(str) && ret != nil && ret != str
+  modifies ddprt.ddpstring, ddprt.Blk.$n, ddprt.Blk.$m
+  ensures old(str.str.B) != nil && ret.str.B != old(str.str.B) ==> old(str.str.B).$n == -1
+  ensures str.str.B == nil && str.cap == 0
+func ddp_string_char_verkettet#2 [C05]
+  requires ownsBlk(str) && tolStr(str) && ret != nil && ret != str
+  modifies ddprt.ddpstring, ddprt.Blk.$n, ddprt.Blk.$m
+  ensures old(str.str.B) != nil && ret.str.B != old(str.str.B) ==> old(str.str.B).$n == -1
+  ensures str.str.B == nil && str.cap == 0
 
 // structure of a well-formed Text: it starts with a lead byte; every lead byte announces 1..4 bytes that fit, are
 // continuation bytes, and are followed by the next lead byte or the end
